@@ -31,11 +31,11 @@ theorem InvDen.same {inp : RunInput} {s s' : Sys} (h : InvDen inp s) (e1 : s'.no
     (e2 : s'.events = s.events) : InvDen inp s' :=
   h.outer e1 [] (by simpa using e2) (by simp)
 
-theorem dtick_invDen {inp : RunInput} {s s' : Sys} {perm : List Name} (h : InvDen inp s)
+theorem dtick_invDen {inp : RunInput} [NoFailDeliver inp] {s s' : Sys} {perm : List Name} (h : InvDen inp s)
     (hs : dtick inp s perm = some s') : InvDen inp s' :=
   ⟨dtick_invN h.nodeS hs, h.den.frame (dtick_stOf hs) [] (by simpa using (dtick_outer hs).1) (by simp)⟩
 
-theorem send_invDen {inp : RunInput} {s s0 : Sys} {node : Option Name} {perm : List Name} (h2 : Inv2 inp s)
+theorem send_invDen {inp : RunInput} [NoFailDeliver inp] {s s0 : Sys} {node : Option Name} {perm : List Name} (h2 : Inv2 inp s)
     (h : InvDen inp s) (hnode : sentBack s = node) (hs : send inp s node perm = some s0) : InvDen inp s0 := by
   obtain ⟨_, hst⟩ := send_inv1 h2.inv1 (fun p hp => h2.sb p (by rw [hnode, hp])) hs
   exact ⟨send_invN h.nodeS hs, h.den.frame hst [] (by simpa using (send_outer hs).1.1) (by simp)⟩
@@ -59,7 +59,7 @@ theorem finishRun_invDen {inp : RunInput} {s : Sys} (h : InvDen inp s) : InvDen 
 
 /-! ### the serial runner -/
 
-theorem serialStep_invDen {inp : RunInput} {s s' : Sys} {perm : List Name} (hG : InvG inp s) (h2 : Inv2 inp s)
+theorem serialStep_invDen {inp : RunInput} [NoFailDeliver inp] {s s' : Sys} {perm : List Name} (hG : InvG inp s) (h2 : Inv2 inp s)
     (h3 : Inv3 inp s) (h : InvDen inp s) (hs : serialStep inp s perm = some s') : InvDen inp s' := by
   unfold serialStep at hs
   cases hr : s.rpc with
@@ -130,7 +130,7 @@ theorem serialStep_invDen {inp : RunInput} {s s' : Sys} {perm : List Name} (hG :
   | pJoin => simp only [hr] at hs; cases hs
   | halted => simp only [hr] at hs; cases hs
 
-theorem reach_invDen {inp : RunInput} {s : Sys} (h : Reach inp s) : InvDen inp s := by
+theorem reach_invDen {inp : RunInput} [NoFailDeliver inp] {s : Sys} (h : Reach inp s) : InvDen inp s := by
   induction h with
   | init => exact init_invDen inp
   | @next s0 s1 c hr hs ih =>
@@ -141,7 +141,7 @@ theorem reach_invDen {inp : RunInput} {s : Sys} (h : Reach inp s) : InvDen inp s
 
 /-! ### the parallel runners -/
 
-theorem mainStep_invDen {inp : RunInput} {s s' : Sys} {perm : List Name} (hG : InvG inp s) (h2 : Inv2 inp s)
+theorem mainStep_invDen {inp : RunInput} [NoFailDeliver inp] {s s' : Sys} {perm : List Name} (hG : InvG inp s) (h2 : Inv2 inp s)
     (h3 : Inv3 inp s) (h : InvDen inp s) (hs : mainStep inp s perm = some s') : InvDen inp s' := by
   unfold mainStep at hs
   cases hr : s.rpc with
@@ -242,7 +242,7 @@ theorem doneStep_invDen {inp : RunInput} {s s' : Sys} {w : Nat} (h : InvDen inp 
   | idle => simp only [hw] at hs; cases hs
   | exited => simp only [hw] at hs; cases hs
 
-theorem preach_invDen {inp : RunInput} {s : Sys} (h : PReach inp s) : InvDen inp s := by
+theorem preach_invDen {inp : RunInput} [NoFailDeliver inp] {s : Sys} (h : PReach inp s) : InvDen inp s := by
   induction h with
   | init => exact init_invDen inp
   | @next s0 s1 c hr hs ih =>
